@@ -54,6 +54,9 @@
 (*  FseEigen, FseRight, FseLeft, FseStretch, FseInvertible                 *)
 (*  ShearEigen, ShearLargest, ShearClosedForm                              *)
 (* and the emitted CASE records carry the expected values for the replay.  *)
+(* cfgs: Diagnostics (quick), Diagnostics_thorough; DiagnosticsNeg is the  *)
+(* non-vacuity control: TLC must refute NegColumnScatter (scatter built    *)
+(* from matrix columns), which is deliberately false.                      *)
 (*                                                                         *)
 (* SECOND USE (cfg DiagnosticsJudge): the law for floating-point           *)
 (* concretisations.  The scenario table (SCEN records) is enumerated here; *)
